@@ -224,10 +224,10 @@ func ruleExactLength(r *Report) {
 			}
 			var un, co *ssa.Parameter
 			for _, pa := range fn.Params {
-				if pa.Name() == "payloadSizeUncompressed" {
+				if refName(pa) == "payloadSizeUncompressed" {
 					un = pa
 				}
-				if pa.Name() == "payloadSizeCompressed" {
+				if refName(pa) == "payloadSizeCompressed" {
 					co = pa
 				}
 			}
